@@ -20,7 +20,6 @@ import (
 	"sync"
 	"sync/atomic"
 	"testing"
-	_ "unsafe" // go:linkname
 
 	"github.com/safing/portbase/config"
 	"github.com/safing/portbase/database"
@@ -42,29 +41,12 @@ var (
 	sharedDBs = map[string]string{}
 )
 
-// configDBController is the config package's (unexported) controller variable
-// of its injected "config" database. The config module sets it in its start
-// routine (registerAsDatabase); the harness does the same registration with the
-// exported pieces (database.Register, database.InjectDatabase,
-// config.StorageInterface) and stores the controller here, so that the config
-// side pushes its updates exactly as in a started system. Starting the module
-// system instead is not an option under the race detector: the config module's
-// own "update log level" event hook uses a getter that is not safe for
-// concurrent use and is run concurrently for successive change events.
-//
-//go:linkname configDBController github.com/safing/portbase/config.dbController
-var configDBController *database.Controller
-
+// registerConfigDatabase makes the real injected "config" database available without starting the module system
+// (starting it is not an option under the race detector: the config module's own "update log level" event hook uses a
+// getter that is not safe for concurrent use and is run concurrently for successive change events).
 func registerConfigDatabase() error {
-	if err := registerDB("config", database.StorageTypeInjected, false); err != nil {
-		return err
-	}
-	ctrl, err := database.InjectDatabase("config", &config.StorageInterface{})
-	if err != nil {
-		return err
-	}
-	configDBController = ctrl
-	return nil
+	// guarded export in config/verif_on.go: registers and injects the config database exactly like the module's start
+	return config.VerifRegisterAsDatabase()
 }
 
 func TestMain(m *testing.M) {
